@@ -82,6 +82,7 @@ var programs = []prog{
 	mkProg("branch", "S:1:B,R,1,2,R,1,3:2,3:0:0:0 S:2:R,1,4:4:0:0:0 S:3:R,1,4:4:0:0:0"),
 	mkProg("callback", "S:1:R,1,2:2:0:0:0 C:2:R,1,3:3 S:3:R,1,4:4:0:0:0"),
 	mkProg("timeout", "S:1:R,1,2:2:0:0:0 T:2:100:R,1,3:3:0 S:3:R,1,4:4:0:0:0"),
+	mkProg("two-timeouts", "S:1:R,1,2:2:0:0:0 T:2:100:R,1,3:3:0 T:2:250:R,1,4:4:0 S:3:R,1,4:4:0:0:0"),
 	mkProg("hooks", "S:1:R,1,2:2:0:0:0 S:2:R,1,3:3:0:0:0 H:3:0 H:4:0 H:5:1 D:0"),
 	mkProg("hooks-cancelled-call", "S:1:R,1,2:2:0:0:0 S:2:R,1,3:3:0:0:0 H:3:1001 H:4:1001 H:5:1002 D:0"),
 	mkProg("flaky", "S:1:F,2,11,R,1,2:2:0:0:0 S:2:F,1,12,R,1,3:3:0:0:0 O:bo=0"),
